@@ -17,6 +17,12 @@ let fst = function
 let snd = function
 | (_, y) -> y
 
+(** val length : 'a1 list -> int **)
+
+let rec length = function
+| [] -> 0
+| _ :: l' -> Stdlib.Int.succ (length l')
+
 (** val app : 'a1 list -> 'a1 list -> 'a1 list **)
 
 let rec app l m =
@@ -89,6 +95,18 @@ module Nat =
         (fun _ -> 0)
         (fun m' -> Stdlib.Int.succ (min n' m'))
         m)
+      n0
+
+  (** val even : int -> bool **)
+
+  let rec even n0 =
+    (fun fO fS n -> if n=0 then fO () else fS (n-1))
+      (fun _ -> true)
+      (fun n1 ->
+      (fun fO fS n -> if n=0 then fO () else fS (n-1))
+        (fun _ -> false)
+        (fun n' -> even n')
+        n1)
       n0
 
   (** val divmod : int -> int -> int -> int -> int * int **)
@@ -1843,6 +1861,688 @@ let int_bin bits op x y =
 let int_sops bits =
   { s_un = (Obj.magic int_un bits); s_bin = (Obj.magic int_bin bits) }
 
+(** val lane_acc :
+    ('a1 -> 'a1 -> 'a1) -> 'a1 -> int -> (int -> 'a1) -> int -> int -> 'a1 **)
+
+let rec lane_acc op seed w f c x =
+  (fun fO fS n -> if n=0 then fO () else fS (n-1))
+    (fun _ -> seed)
+    (fun c' -> op (lane_acc op seed w f c' x) (f (add (mul c' w) x)))
+    c
+
+(** val hfold : ('a1 -> 'a1 -> 'a1) -> int -> (int -> 'a1) -> 'a1 **)
+
+let hfold op w v =
+  fold_left op (map v (seq (Stdlib.Int.succ 0) (sub w (Stdlib.Int.succ 0))))
+    (v 0)
+
+(** val reduce :
+    ('a1 -> 'a1 -> 'a1) -> 'a1 -> int -> int -> (int -> 'a1) -> 'a1 **)
+
+let reduce op seed w n0 f =
+  let c = Nat.div n0 w in
+  let scal = fold_left op (map f (seq (mul c w) (sub n0 (mul c w)))) seed in
+  op (hfold op w (lane_acc op seed w f c)) scal
+
+(** val all_of_loop : (int -> bool) -> int -> int -> bool **)
+
+let rec all_of_loop f i n0 =
+  (fun fO fS n -> if n=0 then fO () else fS (n-1))
+    (fun _ -> true)
+    (fun n' -> if f i then all_of_loop f (Stdlib.Int.succ i) n' else false)
+    n0
+
+(** val any_of_loop : (int -> bool) -> int -> int -> bool **)
+
+let rec any_of_loop f i n0 =
+  (fun fO fS n -> if n=0 then fO () else fS (n-1))
+    (fun _ -> false)
+    (fun n' -> if f i then true else any_of_loop f (Stdlib.Int.succ i) n')
+    n0
+
+(** val all_of : (int -> bool) -> int -> bool **)
+
+let all_of f n0 =
+  all_of_loop f 0 n0
+
+(** val any_of : (int -> bool) -> int -> bool **)
+
+let any_of f n0 =
+  any_of_loop f 0 n0
+
+(** val none_of : (int -> bool) -> int -> bool **)
+
+let none_of f n0 =
+  any_of_loop f 0 n0
+
+(** val det2 : (int -> z) -> z **)
+
+let det2 a =
+  Z.sub
+    (Z.mul (a 0) (a (Stdlib.Int.succ (Stdlib.Int.succ (Stdlib.Int.succ 0)))))
+    (Z.mul (a (Stdlib.Int.succ 0)) (a (Stdlib.Int.succ (Stdlib.Int.succ 0))))
+
+(** val det3 : (int -> z) -> z **)
+
+let det3 a =
+  Z.sub
+    (Z.sub
+      (Z.sub
+        (Z.add
+          (Z.add
+            (Z.mul
+              (Z.mul (a 0)
+                (a (Stdlib.Int.succ (Stdlib.Int.succ (Stdlib.Int.succ
+                  (Stdlib.Int.succ 0))))))
+              (a (Stdlib.Int.succ (Stdlib.Int.succ (Stdlib.Int.succ
+                (Stdlib.Int.succ (Stdlib.Int.succ (Stdlib.Int.succ
+                (Stdlib.Int.succ (Stdlib.Int.succ 0))))))))))
+            (Z.mul
+              (Z.mul (a (Stdlib.Int.succ 0))
+                (a (Stdlib.Int.succ (Stdlib.Int.succ (Stdlib.Int.succ
+                  (Stdlib.Int.succ (Stdlib.Int.succ 0)))))))
+              (a (Stdlib.Int.succ (Stdlib.Int.succ (Stdlib.Int.succ
+                (Stdlib.Int.succ (Stdlib.Int.succ (Stdlib.Int.succ 0)))))))))
+          (Z.mul
+            (Z.mul (a (Stdlib.Int.succ (Stdlib.Int.succ 0)))
+              (a (Stdlib.Int.succ (Stdlib.Int.succ (Stdlib.Int.succ 0)))))
+            (a (Stdlib.Int.succ (Stdlib.Int.succ (Stdlib.Int.succ
+              (Stdlib.Int.succ (Stdlib.Int.succ (Stdlib.Int.succ
+              (Stdlib.Int.succ 0))))))))))
+        (Z.mul
+          (Z.mul (a (Stdlib.Int.succ (Stdlib.Int.succ 0)))
+            (a (Stdlib.Int.succ (Stdlib.Int.succ (Stdlib.Int.succ
+              (Stdlib.Int.succ 0))))))
+          (a (Stdlib.Int.succ (Stdlib.Int.succ (Stdlib.Int.succ
+            (Stdlib.Int.succ (Stdlib.Int.succ (Stdlib.Int.succ 0)))))))))
+      (Z.mul
+        (Z.mul (a (Stdlib.Int.succ 0))
+          (a (Stdlib.Int.succ (Stdlib.Int.succ (Stdlib.Int.succ 0)))))
+        (a (Stdlib.Int.succ (Stdlib.Int.succ (Stdlib.Int.succ
+          (Stdlib.Int.succ (Stdlib.Int.succ (Stdlib.Int.succ (Stdlib.Int.succ
+          (Stdlib.Int.succ 0)))))))))))
+    (Z.mul
+      (Z.mul (a 0)
+        (a (Stdlib.Int.succ (Stdlib.Int.succ (Stdlib.Int.succ
+          (Stdlib.Int.succ (Stdlib.Int.succ 0)))))))
+      (a (Stdlib.Int.succ (Stdlib.Int.succ (Stdlib.Int.succ (Stdlib.Int.succ
+        (Stdlib.Int.succ (Stdlib.Int.succ (Stdlib.Int.succ 0)))))))))
+
+(** val det4 : (int -> z) -> z **)
+
+let det4 m =
+  Z.add
+    (Z.sub
+      (Z.sub
+        (Z.add
+          (Z.add
+            (Z.sub
+              (Z.sub
+                (Z.add
+                  (Z.add
+                    (Z.sub
+                      (Z.sub
+                        (Z.add
+                          (Z.add
+                            (Z.sub
+                              (Z.sub
+                                (Z.add
+                                  (Z.add
+                                    (Z.sub
+                                      (Z.sub
+                                        (Z.add
+                                          (Z.add
+                                            (Z.sub
+                                              (Z.sub
+                                                (Z.mul
+                                                  (Z.mul
+                                                    (Z.mul
+                                                      (m (Stdlib.Int.succ
+                                                        (Stdlib.Int.succ
+                                                        (Stdlib.Int.succ
+                                                        (Stdlib.Int.succ
+                                                        (Stdlib.Int.succ
+                                                        (Stdlib.Int.succ
+                                                        (Stdlib.Int.succ
+                                                        (Stdlib.Int.succ
+                                                        (Stdlib.Int.succ
+                                                        (Stdlib.Int.succ
+                                                        (Stdlib.Int.succ
+                                                        (Stdlib.Int.succ
+                                                        0)))))))))))))
+                                                      (m (Stdlib.Int.succ
+                                                        (Stdlib.Int.succ
+                                                        (Stdlib.Int.succ
+                                                        (Stdlib.Int.succ
+                                                        (Stdlib.Int.succ
+                                                        (Stdlib.Int.succ
+                                                        (Stdlib.Int.succ
+                                                        (Stdlib.Int.succ
+                                                        (Stdlib.Int.succ
+                                                        0)))))))))))
+                                                    (m (Stdlib.Int.succ
+                                                      (Stdlib.Int.succ
+                                                      (Stdlib.Int.succ
+                                                      (Stdlib.Int.succ
+                                                      (Stdlib.Int.succ
+                                                      (Stdlib.Int.succ
+                                                      0))))))))
+                                                  (m (Stdlib.Int.succ
+                                                    (Stdlib.Int.succ
+                                                    (Stdlib.Int.succ 0)))))
+                                                (Z.mul
+                                                  (Z.mul
+                                                    (Z.mul
+                                                      (m (Stdlib.Int.succ
+                                                        (Stdlib.Int.succ
+                                                        (Stdlib.Int.succ
+                                                        (Stdlib.Int.succ
+                                                        (Stdlib.Int.succ
+                                                        (Stdlib.Int.succ
+                                                        (Stdlib.Int.succ
+                                                        (Stdlib.Int.succ
+                                                        0)))))))))
+                                                      (m (Stdlib.Int.succ
+                                                        (Stdlib.Int.succ
+                                                        (Stdlib.Int.succ
+                                                        (Stdlib.Int.succ
+                                                        (Stdlib.Int.succ
+                                                        (Stdlib.Int.succ
+                                                        (Stdlib.Int.succ
+                                                        (Stdlib.Int.succ
+                                                        (Stdlib.Int.succ
+                                                        (Stdlib.Int.succ
+                                                        (Stdlib.Int.succ
+                                                        (Stdlib.Int.succ
+                                                        (Stdlib.Int.succ
+                                                        0)))))))))))))))
+                                                    (m (Stdlib.Int.succ
+                                                      (Stdlib.Int.succ
+                                                      (Stdlib.Int.succ
+                                                      (Stdlib.Int.succ
+                                                      (Stdlib.Int.succ
+                                                      (Stdlib.Int.succ
+                                                      0))))))))
+                                                  (m (Stdlib.Int.succ
+                                                    (Stdlib.Int.succ
+                                                    (Stdlib.Int.succ 0))))))
+                                              (Z.mul
+                                                (Z.mul
+                                                  (Z.mul
+                                                    (m (Stdlib.Int.succ
+                                                      (Stdlib.Int.succ
+                                                      (Stdlib.Int.succ
+                                                      (Stdlib.Int.succ
+                                                      (Stdlib.Int.succ
+                                                      (Stdlib.Int.succ
+                                                      (Stdlib.Int.succ
+                                                      (Stdlib.Int.succ
+                                                      (Stdlib.Int.succ
+                                                      (Stdlib.Int.succ
+                                                      (Stdlib.Int.succ
+                                                      (Stdlib.Int.succ
+                                                      0)))))))))))))
+                                                    (m (Stdlib.Int.succ
+                                                      (Stdlib.Int.succ
+                                                      (Stdlib.Int.succ
+                                                      (Stdlib.Int.succ
+                                                      (Stdlib.Int.succ 0)))))))
+                                                  (m (Stdlib.Int.succ
+                                                    (Stdlib.Int.succ
+                                                    (Stdlib.Int.succ
+                                                    (Stdlib.Int.succ
+                                                    (Stdlib.Int.succ
+                                                    (Stdlib.Int.succ
+                                                    (Stdlib.Int.succ
+                                                    (Stdlib.Int.succ
+                                                    (Stdlib.Int.succ
+                                                    (Stdlib.Int.succ
+                                                    0))))))))))))
+                                                (m (Stdlib.Int.succ
+                                                  (Stdlib.Int.succ
+                                                  (Stdlib.Int.succ 0))))))
+                                            (Z.mul
+                                              (Z.mul
+                                                (Z.mul
+                                                  (m (Stdlib.Int.succ
+                                                    (Stdlib.Int.succ
+                                                    (Stdlib.Int.succ
+                                                    (Stdlib.Int.succ 0)))))
+                                                  (m (Stdlib.Int.succ
+                                                    (Stdlib.Int.succ
+                                                    (Stdlib.Int.succ
+                                                    (Stdlib.Int.succ
+                                                    (Stdlib.Int.succ
+                                                    (Stdlib.Int.succ
+                                                    (Stdlib.Int.succ
+                                                    (Stdlib.Int.succ
+                                                    (Stdlib.Int.succ
+                                                    (Stdlib.Int.succ
+                                                    (Stdlib.Int.succ
+                                                    (Stdlib.Int.succ
+                                                    (Stdlib.Int.succ
+                                                    0)))))))))))))))
+                                                (m (Stdlib.Int.succ
+                                                  (Stdlib.Int.succ
+                                                  (Stdlib.Int.succ
+                                                  (Stdlib.Int.succ
+                                                  (Stdlib.Int.succ
+                                                  (Stdlib.Int.succ
+                                                  (Stdlib.Int.succ
+                                                  (Stdlib.Int.succ
+                                                  (Stdlib.Int.succ
+                                                  (Stdlib.Int.succ
+                                                  0))))))))))))
+                                              (m (Stdlib.Int.succ
+                                                (Stdlib.Int.succ
+                                                (Stdlib.Int.succ 0))))))
+                                          (Z.mul
+                                            (Z.mul
+                                              (Z.mul
+                                                (m (Stdlib.Int.succ
+                                                  (Stdlib.Int.succ
+                                                  (Stdlib.Int.succ
+                                                  (Stdlib.Int.succ
+                                                  (Stdlib.Int.succ
+                                                  (Stdlib.Int.succ
+                                                  (Stdlib.Int.succ
+                                                  (Stdlib.Int.succ 0)))))))))
+                                                (m (Stdlib.Int.succ
+                                                  (Stdlib.Int.succ
+                                                  (Stdlib.Int.succ
+                                                  (Stdlib.Int.succ
+                                                  (Stdlib.Int.succ 0)))))))
+                                              (m (Stdlib.Int.succ
+                                                (Stdlib.Int.succ
+                                                (Stdlib.Int.succ
+                                                (Stdlib.Int.succ
+                                                (Stdlib.Int.succ
+                                                (Stdlib.Int.succ
+                                                (Stdlib.Int.succ
+                                                (Stdlib.Int.succ
+                                                (Stdlib.Int.succ
+                                                (Stdlib.Int.succ
+                                                (Stdlib.Int.succ
+                                                (Stdlib.Int.succ
+                                                (Stdlib.Int.succ
+                                                (Stdlib.Int.succ
+                                                0))))))))))))))))
+                                            (m (Stdlib.Int.succ
+                                              (Stdlib.Int.succ
+                                              (Stdlib.Int.succ 0))))))
+                                        (Z.mul
+                                          (Z.mul
+                                            (Z.mul
+                                              (m (Stdlib.Int.succ
+                                                (Stdlib.Int.succ
+                                                (Stdlib.Int.succ
+                                                (Stdlib.Int.succ 0)))))
+                                              (m (Stdlib.Int.succ
+                                                (Stdlib.Int.succ
+                                                (Stdlib.Int.succ
+                                                (Stdlib.Int.succ
+                                                (Stdlib.Int.succ
+                                                (Stdlib.Int.succ
+                                                (Stdlib.Int.succ
+                                                (Stdlib.Int.succ
+                                                (Stdlib.Int.succ 0)))))))))))
+                                            (m (Stdlib.Int.succ
+                                              (Stdlib.Int.succ
+                                              (Stdlib.Int.succ
+                                              (Stdlib.Int.succ
+                                              (Stdlib.Int.succ
+                                              (Stdlib.Int.succ
+                                              (Stdlib.Int.succ
+                                              (Stdlib.Int.succ
+                                              (Stdlib.Int.succ
+                                              (Stdlib.Int.succ
+                                              (Stdlib.Int.succ
+                                              (Stdlib.Int.succ
+                                              (Stdlib.Int.succ
+                                              (Stdlib.Int.succ
+                                              0))))))))))))))))
+                                          (m (Stdlib.Int.succ
+                                            (Stdlib.Int.succ (Stdlib.Int.succ
+                                            0))))))
+                                      (Z.mul
+                                        (Z.mul
+                                          (Z.mul
+                                            (m (Stdlib.Int.succ
+                                              (Stdlib.Int.succ
+                                              (Stdlib.Int.succ
+                                              (Stdlib.Int.succ
+                                              (Stdlib.Int.succ
+                                              (Stdlib.Int.succ
+                                              (Stdlib.Int.succ
+                                              (Stdlib.Int.succ
+                                              (Stdlib.Int.succ
+                                              (Stdlib.Int.succ
+                                              (Stdlib.Int.succ
+                                              (Stdlib.Int.succ 0)))))))))))))
+                                            (m (Stdlib.Int.succ
+                                              (Stdlib.Int.succ
+                                              (Stdlib.Int.succ
+                                              (Stdlib.Int.succ
+                                              (Stdlib.Int.succ
+                                              (Stdlib.Int.succ
+                                              (Stdlib.Int.succ
+                                              (Stdlib.Int.succ
+                                              (Stdlib.Int.succ 0)))))))))))
+                                          (m (Stdlib.Int.succ
+                                            (Stdlib.Int.succ 0))))
+                                        (m (Stdlib.Int.succ (Stdlib.Int.succ
+                                          (Stdlib.Int.succ (Stdlib.Int.succ
+                                          (Stdlib.Int.succ (Stdlib.Int.succ
+                                          (Stdlib.Int.succ 0))))))))))
+                                    (Z.mul
+                                      (Z.mul
+                                        (Z.mul
+                                          (m (Stdlib.Int.succ
+                                            (Stdlib.Int.succ (Stdlib.Int.succ
+                                            (Stdlib.Int.succ (Stdlib.Int.succ
+                                            (Stdlib.Int.succ (Stdlib.Int.succ
+                                            (Stdlib.Int.succ 0)))))))))
+                                          (m (Stdlib.Int.succ
+                                            (Stdlib.Int.succ (Stdlib.Int.succ
+                                            (Stdlib.Int.succ (Stdlib.Int.succ
+                                            (Stdlib.Int.succ (Stdlib.Int.succ
+                                            (Stdlib.Int.succ (Stdlib.Int.succ
+                                            (Stdlib.Int.succ (Stdlib.Int.succ
+                                            (Stdlib.Int.succ (Stdlib.Int.succ
+                                            0)))))))))))))))
+                                        (m (Stdlib.Int.succ (Stdlib.Int.succ
+                                          0))))
+                                      (m (Stdlib.Int.succ (Stdlib.Int.succ
+                                        (Stdlib.Int.succ (Stdlib.Int.succ
+                                        (Stdlib.Int.succ (Stdlib.Int.succ
+                                        (Stdlib.Int.succ 0))))))))))
+                                  (Z.mul
+                                    (Z.mul
+                                      (Z.mul
+                                        (m (Stdlib.Int.succ (Stdlib.Int.succ
+                                          (Stdlib.Int.succ (Stdlib.Int.succ
+                                          (Stdlib.Int.succ (Stdlib.Int.succ
+                                          (Stdlib.Int.succ (Stdlib.Int.succ
+                                          (Stdlib.Int.succ (Stdlib.Int.succ
+                                          (Stdlib.Int.succ (Stdlib.Int.succ
+                                          0)))))))))))))
+                                        (m (Stdlib.Int.succ 0)))
+                                      (m (Stdlib.Int.succ (Stdlib.Int.succ
+                                        (Stdlib.Int.succ (Stdlib.Int.succ
+                                        (Stdlib.Int.succ (Stdlib.Int.succ
+                                        (Stdlib.Int.succ (Stdlib.Int.succ
+                                        (Stdlib.Int.succ (Stdlib.Int.succ
+                                        0))))))))))))
+                                    (m (Stdlib.Int.succ (Stdlib.Int.succ
+                                      (Stdlib.Int.succ (Stdlib.Int.succ
+                                      (Stdlib.Int.succ (Stdlib.Int.succ
+                                      (Stdlib.Int.succ 0))))))))))
+                                (Z.mul
+                                  (Z.mul
+                                    (Z.mul (m 0)
+                                      (m (Stdlib.Int.succ (Stdlib.Int.succ
+                                        (Stdlib.Int.succ (Stdlib.Int.succ
+                                        (Stdlib.Int.succ (Stdlib.Int.succ
+                                        (Stdlib.Int.succ (Stdlib.Int.succ
+                                        (Stdlib.Int.succ (Stdlib.Int.succ
+                                        (Stdlib.Int.succ (Stdlib.Int.succ
+                                        (Stdlib.Int.succ 0)))))))))))))))
+                                    (m (Stdlib.Int.succ (Stdlib.Int.succ
+                                      (Stdlib.Int.succ (Stdlib.Int.succ
+                                      (Stdlib.Int.succ (Stdlib.Int.succ
+                                      (Stdlib.Int.succ (Stdlib.Int.succ
+                                      (Stdlib.Int.succ (Stdlib.Int.succ
+                                      0))))))))))))
+                                  (m (Stdlib.Int.succ (Stdlib.Int.succ
+                                    (Stdlib.Int.succ (Stdlib.Int.succ
+                                    (Stdlib.Int.succ (Stdlib.Int.succ
+                                    (Stdlib.Int.succ 0))))))))))
+                              (Z.mul
+                                (Z.mul
+                                  (Z.mul
+                                    (m (Stdlib.Int.succ (Stdlib.Int.succ
+                                      (Stdlib.Int.succ (Stdlib.Int.succ
+                                      (Stdlib.Int.succ (Stdlib.Int.succ
+                                      (Stdlib.Int.succ (Stdlib.Int.succ
+                                      0))))))))) (m (Stdlib.Int.succ 0)))
+                                  (m (Stdlib.Int.succ (Stdlib.Int.succ
+                                    (Stdlib.Int.succ (Stdlib.Int.succ
+                                    (Stdlib.Int.succ (Stdlib.Int.succ
+                                    (Stdlib.Int.succ (Stdlib.Int.succ
+                                    (Stdlib.Int.succ (Stdlib.Int.succ
+                                    (Stdlib.Int.succ (Stdlib.Int.succ
+                                    (Stdlib.Int.succ (Stdlib.Int.succ
+                                    0))))))))))))))))
+                                (m (Stdlib.Int.succ (Stdlib.Int.succ
+                                  (Stdlib.Int.succ (Stdlib.Int.succ
+                                  (Stdlib.Int.succ (Stdlib.Int.succ
+                                  (Stdlib.Int.succ 0))))))))))
+                            (Z.mul
+                              (Z.mul
+                                (Z.mul (m 0)
+                                  (m (Stdlib.Int.succ (Stdlib.Int.succ
+                                    (Stdlib.Int.succ (Stdlib.Int.succ
+                                    (Stdlib.Int.succ (Stdlib.Int.succ
+                                    (Stdlib.Int.succ (Stdlib.Int.succ
+                                    (Stdlib.Int.succ 0)))))))))))
+                                (m (Stdlib.Int.succ (Stdlib.Int.succ
+                                  (Stdlib.Int.succ (Stdlib.Int.succ
+                                  (Stdlib.Int.succ (Stdlib.Int.succ
+                                  (Stdlib.Int.succ (Stdlib.Int.succ
+                                  (Stdlib.Int.succ (Stdlib.Int.succ
+                                  (Stdlib.Int.succ (Stdlib.Int.succ
+                                  (Stdlib.Int.succ (Stdlib.Int.succ
+                                  0))))))))))))))))
+                              (m (Stdlib.Int.succ (Stdlib.Int.succ
+                                (Stdlib.Int.succ (Stdlib.Int.succ
+                                (Stdlib.Int.succ (Stdlib.Int.succ
+                                (Stdlib.Int.succ 0))))))))))
+                          (Z.mul
+                            (Z.mul
+                              (Z.mul
+                                (m (Stdlib.Int.succ (Stdlib.Int.succ
+                                  (Stdlib.Int.succ (Stdlib.Int.succ
+                                  (Stdlib.Int.succ (Stdlib.Int.succ
+                                  (Stdlib.Int.succ (Stdlib.Int.succ
+                                  (Stdlib.Int.succ (Stdlib.Int.succ
+                                  (Stdlib.Int.succ (Stdlib.Int.succ
+                                  0)))))))))))))
+                                (m (Stdlib.Int.succ (Stdlib.Int.succ
+                                  (Stdlib.Int.succ (Stdlib.Int.succ
+                                  (Stdlib.Int.succ 0)))))))
+                              (m (Stdlib.Int.succ (Stdlib.Int.succ 0))))
+                            (m (Stdlib.Int.succ (Stdlib.Int.succ
+                              (Stdlib.Int.succ (Stdlib.Int.succ
+                              (Stdlib.Int.succ (Stdlib.Int.succ
+                              (Stdlib.Int.succ (Stdlib.Int.succ
+                              (Stdlib.Int.succ (Stdlib.Int.succ
+                              (Stdlib.Int.succ 0))))))))))))))
+                        (Z.mul
+                          (Z.mul
+                            (Z.mul
+                              (m (Stdlib.Int.succ (Stdlib.Int.succ
+                                (Stdlib.Int.succ (Stdlib.Int.succ 0)))))
+                              (m (Stdlib.Int.succ (Stdlib.Int.succ
+                                (Stdlib.Int.succ (Stdlib.Int.succ
+                                (Stdlib.Int.succ (Stdlib.Int.succ
+                                (Stdlib.Int.succ (Stdlib.Int.succ
+                                (Stdlib.Int.succ (Stdlib.Int.succ
+                                (Stdlib.Int.succ (Stdlib.Int.succ
+                                (Stdlib.Int.succ 0)))))))))))))))
+                            (m (Stdlib.Int.succ (Stdlib.Int.succ 0))))
+                          (m (Stdlib.Int.succ (Stdlib.Int.succ
+                            (Stdlib.Int.succ (Stdlib.Int.succ
+                            (Stdlib.Int.succ (Stdlib.Int.succ
+                            (Stdlib.Int.succ (Stdlib.Int.succ
+                            (Stdlib.Int.succ (Stdlib.Int.succ
+                            (Stdlib.Int.succ 0))))))))))))))
+                      (Z.mul
+                        (Z.mul
+                          (Z.mul
+                            (m (Stdlib.Int.succ (Stdlib.Int.succ
+                              (Stdlib.Int.succ (Stdlib.Int.succ
+                              (Stdlib.Int.succ (Stdlib.Int.succ
+                              (Stdlib.Int.succ (Stdlib.Int.succ
+                              (Stdlib.Int.succ (Stdlib.Int.succ
+                              (Stdlib.Int.succ (Stdlib.Int.succ 0)))))))))))))
+                            (m (Stdlib.Int.succ 0)))
+                          (m (Stdlib.Int.succ (Stdlib.Int.succ
+                            (Stdlib.Int.succ (Stdlib.Int.succ
+                            (Stdlib.Int.succ (Stdlib.Int.succ 0))))))))
+                        (m (Stdlib.Int.succ (Stdlib.Int.succ (Stdlib.Int.succ
+                          (Stdlib.Int.succ (Stdlib.Int.succ (Stdlib.Int.succ
+                          (Stdlib.Int.succ (Stdlib.Int.succ (Stdlib.Int.succ
+                          (Stdlib.Int.succ (Stdlib.Int.succ 0))))))))))))))
+                    (Z.mul
+                      (Z.mul
+                        (Z.mul (m 0)
+                          (m (Stdlib.Int.succ (Stdlib.Int.succ
+                            (Stdlib.Int.succ (Stdlib.Int.succ
+                            (Stdlib.Int.succ (Stdlib.Int.succ
+                            (Stdlib.Int.succ (Stdlib.Int.succ
+                            (Stdlib.Int.succ (Stdlib.Int.succ
+                            (Stdlib.Int.succ (Stdlib.Int.succ
+                            (Stdlib.Int.succ 0)))))))))))))))
+                        (m (Stdlib.Int.succ (Stdlib.Int.succ (Stdlib.Int.succ
+                          (Stdlib.Int.succ (Stdlib.Int.succ (Stdlib.Int.succ
+                          0))))))))
+                      (m (Stdlib.Int.succ (Stdlib.Int.succ (Stdlib.Int.succ
+                        (Stdlib.Int.succ (Stdlib.Int.succ (Stdlib.Int.succ
+                        (Stdlib.Int.succ (Stdlib.Int.succ (Stdlib.Int.succ
+                        (Stdlib.Int.succ (Stdlib.Int.succ 0))))))))))))))
+                  (Z.mul
+                    (Z.mul
+                      (Z.mul
+                        (m (Stdlib.Int.succ (Stdlib.Int.succ (Stdlib.Int.succ
+                          (Stdlib.Int.succ 0))))) (m (Stdlib.Int.succ 0)))
+                      (m (Stdlib.Int.succ (Stdlib.Int.succ (Stdlib.Int.succ
+                        (Stdlib.Int.succ (Stdlib.Int.succ (Stdlib.Int.succ
+                        (Stdlib.Int.succ (Stdlib.Int.succ (Stdlib.Int.succ
+                        (Stdlib.Int.succ (Stdlib.Int.succ (Stdlib.Int.succ
+                        (Stdlib.Int.succ (Stdlib.Int.succ 0))))))))))))))))
+                    (m (Stdlib.Int.succ (Stdlib.Int.succ (Stdlib.Int.succ
+                      (Stdlib.Int.succ (Stdlib.Int.succ (Stdlib.Int.succ
+                      (Stdlib.Int.succ (Stdlib.Int.succ (Stdlib.Int.succ
+                      (Stdlib.Int.succ (Stdlib.Int.succ 0))))))))))))))
+                (Z.mul
+                  (Z.mul
+                    (Z.mul (m 0)
+                      (m (Stdlib.Int.succ (Stdlib.Int.succ (Stdlib.Int.succ
+                        (Stdlib.Int.succ (Stdlib.Int.succ 0)))))))
+                    (m (Stdlib.Int.succ (Stdlib.Int.succ (Stdlib.Int.succ
+                      (Stdlib.Int.succ (Stdlib.Int.succ (Stdlib.Int.succ
+                      (Stdlib.Int.succ (Stdlib.Int.succ (Stdlib.Int.succ
+                      (Stdlib.Int.succ (Stdlib.Int.succ (Stdlib.Int.succ
+                      (Stdlib.Int.succ (Stdlib.Int.succ 0))))))))))))))))
+                  (m (Stdlib.Int.succ (Stdlib.Int.succ (Stdlib.Int.succ
+                    (Stdlib.Int.succ (Stdlib.Int.succ (Stdlib.Int.succ
+                    (Stdlib.Int.succ (Stdlib.Int.succ (Stdlib.Int.succ
+                    (Stdlib.Int.succ (Stdlib.Int.succ 0))))))))))))))
+              (Z.mul
+                (Z.mul
+                  (Z.mul
+                    (m (Stdlib.Int.succ (Stdlib.Int.succ (Stdlib.Int.succ
+                      (Stdlib.Int.succ (Stdlib.Int.succ (Stdlib.Int.succ
+                      (Stdlib.Int.succ (Stdlib.Int.succ 0)))))))))
+                    (m (Stdlib.Int.succ (Stdlib.Int.succ (Stdlib.Int.succ
+                      (Stdlib.Int.succ (Stdlib.Int.succ 0)))))))
+                  (m (Stdlib.Int.succ (Stdlib.Int.succ 0))))
+                (m (Stdlib.Int.succ (Stdlib.Int.succ (Stdlib.Int.succ
+                  (Stdlib.Int.succ (Stdlib.Int.succ (Stdlib.Int.succ
+                  (Stdlib.Int.succ (Stdlib.Int.succ (Stdlib.Int.succ
+                  (Stdlib.Int.succ (Stdlib.Int.succ (Stdlib.Int.succ
+                  (Stdlib.Int.succ (Stdlib.Int.succ (Stdlib.Int.succ
+                  0))))))))))))))))))
+            (Z.mul
+              (Z.mul
+                (Z.mul
+                  (m (Stdlib.Int.succ (Stdlib.Int.succ (Stdlib.Int.succ
+                    (Stdlib.Int.succ 0)))))
+                  (m (Stdlib.Int.succ (Stdlib.Int.succ (Stdlib.Int.succ
+                    (Stdlib.Int.succ (Stdlib.Int.succ (Stdlib.Int.succ
+                    (Stdlib.Int.succ (Stdlib.Int.succ (Stdlib.Int.succ
+                    0))))))))))) (m (Stdlib.Int.succ (Stdlib.Int.succ 0))))
+              (m (Stdlib.Int.succ (Stdlib.Int.succ (Stdlib.Int.succ
+                (Stdlib.Int.succ (Stdlib.Int.succ (Stdlib.Int.succ
+                (Stdlib.Int.succ (Stdlib.Int.succ (Stdlib.Int.succ
+                (Stdlib.Int.succ (Stdlib.Int.succ (Stdlib.Int.succ
+                (Stdlib.Int.succ (Stdlib.Int.succ (Stdlib.Int.succ
+                0))))))))))))))))))
+          (Z.mul
+            (Z.mul
+              (Z.mul
+                (m (Stdlib.Int.succ (Stdlib.Int.succ (Stdlib.Int.succ
+                  (Stdlib.Int.succ (Stdlib.Int.succ (Stdlib.Int.succ
+                  (Stdlib.Int.succ (Stdlib.Int.succ 0)))))))))
+                (m (Stdlib.Int.succ 0)))
+              (m (Stdlib.Int.succ (Stdlib.Int.succ (Stdlib.Int.succ
+                (Stdlib.Int.succ (Stdlib.Int.succ (Stdlib.Int.succ 0))))))))
+            (m (Stdlib.Int.succ (Stdlib.Int.succ (Stdlib.Int.succ
+              (Stdlib.Int.succ (Stdlib.Int.succ (Stdlib.Int.succ
+              (Stdlib.Int.succ (Stdlib.Int.succ (Stdlib.Int.succ
+              (Stdlib.Int.succ (Stdlib.Int.succ (Stdlib.Int.succ
+              (Stdlib.Int.succ (Stdlib.Int.succ (Stdlib.Int.succ
+              0))))))))))))))))))
+        (Z.mul
+          (Z.mul
+            (Z.mul (m 0)
+              (m (Stdlib.Int.succ (Stdlib.Int.succ (Stdlib.Int.succ
+                (Stdlib.Int.succ (Stdlib.Int.succ (Stdlib.Int.succ
+                (Stdlib.Int.succ (Stdlib.Int.succ (Stdlib.Int.succ 0)))))))))))
+            (m (Stdlib.Int.succ (Stdlib.Int.succ (Stdlib.Int.succ
+              (Stdlib.Int.succ (Stdlib.Int.succ (Stdlib.Int.succ 0))))))))
+          (m (Stdlib.Int.succ (Stdlib.Int.succ (Stdlib.Int.succ
+            (Stdlib.Int.succ (Stdlib.Int.succ (Stdlib.Int.succ
+            (Stdlib.Int.succ (Stdlib.Int.succ (Stdlib.Int.succ
+            (Stdlib.Int.succ (Stdlib.Int.succ (Stdlib.Int.succ
+            (Stdlib.Int.succ (Stdlib.Int.succ (Stdlib.Int.succ
+            0))))))))))))))))))
+      (Z.mul
+        (Z.mul
+          (Z.mul
+            (m (Stdlib.Int.succ (Stdlib.Int.succ (Stdlib.Int.succ
+              (Stdlib.Int.succ 0))))) (m (Stdlib.Int.succ 0)))
+          (m (Stdlib.Int.succ (Stdlib.Int.succ (Stdlib.Int.succ
+            (Stdlib.Int.succ (Stdlib.Int.succ (Stdlib.Int.succ
+            (Stdlib.Int.succ (Stdlib.Int.succ (Stdlib.Int.succ
+            (Stdlib.Int.succ 0))))))))))))
+        (m (Stdlib.Int.succ (Stdlib.Int.succ (Stdlib.Int.succ
+          (Stdlib.Int.succ (Stdlib.Int.succ (Stdlib.Int.succ (Stdlib.Int.succ
+          (Stdlib.Int.succ (Stdlib.Int.succ (Stdlib.Int.succ (Stdlib.Int.succ
+          (Stdlib.Int.succ (Stdlib.Int.succ (Stdlib.Int.succ (Stdlib.Int.succ
+          0))))))))))))))))))
+    (Z.mul
+      (Z.mul
+        (Z.mul (m 0)
+          (m (Stdlib.Int.succ (Stdlib.Int.succ (Stdlib.Int.succ
+            (Stdlib.Int.succ (Stdlib.Int.succ 0)))))))
+        (m (Stdlib.Int.succ (Stdlib.Int.succ (Stdlib.Int.succ
+          (Stdlib.Int.succ (Stdlib.Int.succ (Stdlib.Int.succ (Stdlib.Int.succ
+          (Stdlib.Int.succ (Stdlib.Int.succ (Stdlib.Int.succ 0))))))))))))
+      (m (Stdlib.Int.succ (Stdlib.Int.succ (Stdlib.Int.succ (Stdlib.Int.succ
+        (Stdlib.Int.succ (Stdlib.Int.succ (Stdlib.Int.succ (Stdlib.Int.succ
+        (Stdlib.Int.succ (Stdlib.Int.succ (Stdlib.Int.succ (Stdlib.Int.succ
+        (Stdlib.Int.succ (Stdlib.Int.succ (Stdlib.Int.succ 0)))))))))))))))))
+
+(** val laplace : int -> (int -> int -> z) -> z **)
+
+let rec laplace n0 m =
+  (fun fO fS n -> if n=0 then fO () else fS (n-1))
+    (fun _ -> Zpos XH)
+    (fun n' ->
+    fold_left Z.add
+      (map (fun j ->
+        Z.mul (Z.mul (if Nat.even j then Zpos XH else Zneg XH) (m 0 j))
+          (laplace n' (fun r c ->
+            m (Stdlib.Int.succ r)
+              (if Nat.ltb c j then c else Stdlib.Int.succ c)))) (seq 0 n0)) Z0)
+    n0
+
+(** val det_spec : int -> (int -> z) -> z **)
+
+let det_spec n0 a =
+  laplace n0 (fun i j -> a (add (mul i n0) j))
+
 (** val run_matmul_Z :
     cfg -> ety -> int -> int -> int -> z list -> z list -> z list **)
 
@@ -1934,3 +2634,48 @@ let run_assign_Z bits w n0 boolean aop e tensors =
   let o = int_sops bits in
   map (Obj.magic assign zS o (vops_of zS o) w 0 n0 boolean aop e m 0)
     (seq 0 (add n0 (Stdlib.Int.succ (Stdlib.Int.succ 0))))
+
+(** val run_reduce_Z : z -> int -> z list -> z -> z -> z list **)
+
+let run_reduce_Z bits w data lo hi =
+  let n0 = length data in
+  let f = fun i -> nth i data Z0 in
+  (reduce (int_bin bits 0) Z0 w n0 f) :: ((reduce
+                                            (int_bin bits (Stdlib.Int.succ
+                                              (Stdlib.Int.succ 0))) (Zpos XH)
+                                            w n0 f) :: ((reduce Z.min hi w n0
+                                                          f) :: ((reduce
+                                                                   Z.max lo w
+                                                                   n0 f) :: [])))
+
+(** val run_preds : bool list -> bool list **)
+
+let run_preds data =
+  let n0 = length data in
+  let f = fun i -> nth i data false in
+  (all_of f n0) :: ((any_of f n0) :: ((none_of f n0) :: []))
+
+(** val run_det_Z : int -> z list -> z **)
+
+let run_det_Z n0 a =
+  let f = fun i -> nth i a Z0 in
+  ((fun fO fS n -> if n=0 then fO () else fS (n-1))
+     (fun _ -> det_spec n0 f)
+     (fun n1 ->
+     (fun fO fS n -> if n=0 then fO () else fS (n-1))
+       (fun _ -> det_spec n0 f)
+       (fun n2 ->
+       (fun fO fS n -> if n=0 then fO () else fS (n-1))
+         (fun _ -> det2 f)
+         (fun n3 ->
+         (fun fO fS n -> if n=0 then fO () else fS (n-1))
+           (fun _ -> det3 f)
+           (fun n4 ->
+           (fun fO fS n -> if n=0 then fO () else fS (n-1))
+             (fun _ -> det4 f)
+             (fun _ -> det_spec n0 f)
+             n4)
+           n3)
+         n2)
+       n1)
+     n0)
